@@ -27,7 +27,7 @@ from vf import explore, runeq
 
 ID = "C13"
 LEVEL = "model_checking"
-RULE = ("choice tree: 102 base protos (24 hand-written @script functions: 20 as to_model_proto(), 24 as "
+RULE = ("choice tree: 108 base protos (27 hand-written @script functions: 23 as to_model_proto(), 27 as "
         "to_function_proto(); 30 onnx.helper models incl. 5 out-of-class: 30 as ModelProto, 28 as FunctionProto) "
         "x per constant slot {pool value, Constant node | initializer} "
         "x per value name {keep | 11-name alphabet} (deviation bound 1 quick / 2 thorough over constants and names "
